@@ -186,13 +186,17 @@ class MindsDBParser(Parser):
         if 'database' not in params:
             raise ParsingException("CREATE CHATBOT: 'database' parameter is required")
 
-        database = Identifier(params.pop('database'))
-        model_param = params.pop('model', None)
-        agent_param = params.pop('agent', None)
-        model = Identifier(
-            model_param) if model_param is not None else None
-        agent = Identifier(
-            agent_param) if agent_param is not None else None
+        def to_identifier(name, required=False):
+            value = params.pop(name, None)
+            if isinstance(value, Identifier) or (value is None and not required):
+                return value
+            if not isinstance(value, str) or value == '':
+                raise ParsingException(f"CREATE CHATBOT: '{name}' must be a name (string or identifier), got: {value!r}")
+            return Identifier(value)
+
+        database = to_identifier('database', required=True)
+        model = to_identifier('model')
+        agent = to_identifier('agent')
         return CreateChatBot(
             name=p.identifier,
             database=database,
